@@ -84,9 +84,9 @@ func safeLoad(workdir string, env map[string]string, docs []namedDoc, opts ...fu
 }
 
 type namedDoc struct {
-	Name     string
-	Content  string
-	InMemory bool
+	Name     string `json:"name"`
+	Content  string `json:"content"`
+	InMemory bool   `json:"in_memory"`
 }
 
 // projDump is the canonical deep dump of a project with the fields that only record where it was loaded from cleared.
